@@ -97,7 +97,7 @@ PROBE_TAGS = {
     "op:stop": {"C04", "C02"}, "op:close": {"C04", "C02"}, "op:drop_store": {"C15", "C04"},
     "join": {"C04", "C15", "C11", "C10"}, "stop.drain": {"C04", "C15", "C11"},
     "op:unsub": {"C09", "C10"}, "op:add_sub": {"C09", "C07"}, "op:subscribed": {"C10", "C09"}, "sub.reg": {"C10", "C09"}, "op:iter": {"C14"},
-    "op:next": {"C14"}, "iter.end": {"C14"}, "iter.drop": {"C14"}, "chjoin": {"C10", "C09"}, "ctxdrop": {"C10"},
+    "op:next": {"C14"}, "iter.end": {"C14"}, "iter.drop": {"C14"}, "chjoin": {"C10", "C09"}, "ctxdrop": {"C10", "C09"},
     "snap": {"C09", "C07", "C03"}, "clear": {"C09", "C04"}, "chfwd": {"C10"}, "w.start": {"C11", "C02"}, "w.cb": {"C11", "C02"},
     "op:add_reducer": {"C07"}, "op:add_mw": {"C07"}, "op:wait": set(),
 }
